@@ -180,7 +180,7 @@ PROFILE = {
     # answers (Accept-Encoding with a low threshold), both
     'client_flavours': ['plain', 'plain', 'plain', 'jsonp', 'gzip', 'jsonp+gzip'],
     'weights': {'open': 3, 'poll': 5, 'post': 2, 'probe_step': 6, 'ws_send': 2, 'ws_close': 1,
-                'ws_fail': 1, 'ws_soft_fail': 1, 'pong': 1, 'upg_swap': 1, 'app_send': 8, 'app_burst': 1, 'advance': 3},
+                'ws_fail': 1, 'ws_soft_fail': 1, 'pong': 1, 'upg_swap': 2, 'app_send': 8, 'app_burst': 1, 'advance': 3},
     'max_sessions': 3,
     # half of the client's messages are answered by the message handler itself (send() from
     # inside the handler, before it returns): replies join the ordinary send stream
